@@ -60,6 +60,15 @@ GenericConvProgs == {[name |-> "generic-converter-" \o k,
                       src |-> Hdr("") \o "type G[T any] struct{ V T }\n\n// goverter:converter\ntype C[T any] interface {\n\t" \o
                               (CASE k = "param" -> "Conv(source T) T" [] k = "inst" -> "Conv(source G[T]) G[T]" [] k = "slice" -> "Conv(source []T) []T") \o "\n}\n"] :
                         k \in {"param", "inst", "slice"}}
+\* converter interfaces with embedded interfaces / type sets, and a recursive helper that gains an error result late
+OddConvProgs == {[name |-> "oddconv-" \o k,
+                  src |-> CASE k = "embedded" -> Hdr("") \o "type Base interface {\n\tConvB(source int) int\n}\n\n// goverter:converter\ntype C interface {\n\tBase\n\tConv(source int) int\n}\n"
+                            [] k = "embedded-only" -> Hdr("") \o "type Base interface {\n\tConvB(source int) int\n}\n\n// goverter:converter\ntype C interface {\n\tBase\n}\n"
+                            [] k = "typeset" -> Hdr("") \o "// goverter:converter\ntype C interface {\n\t~int | ~string\n}\n"
+                            [] k = "empty" -> Hdr("") \o "// goverter:converter\ntype C interface{}\n"
+                            [] k = "late-error" -> Hdr("") \o "import \"strconv\"\n\nvar _ = strconv.Atoi\n\ntype In struct {\n\tKids  []In\n\tValue string\n}\ntype Out struct {\n\tKids  []Out\n\tValue int\n}\n\n// goverter:converter\n// goverter:extend strconv:Atoi\ntype C interface {\n\tConv(source *In) (*Out, error)\n}\n"
+                            [] k = "late-error-2" -> Hdr("") \o "import \"strconv\"\n\nvar _ = strconv.Atoi\n\ntype In struct {\n\tL *In\n\tR []In\n\tM map[string]In\n\tValue string\n}\ntype Out struct {\n\tL *Out\n\tR []Out\n\tM map[string]Out\n\tValue int\n}\n\n// goverter:converter\n// goverter:extend strconv:Atoi\ntype C interface {\n\tConv(source []In) ([]Out, error)\n}\n"] :
+                    k \in {"embedded", "embedded-only", "typeset", "empty", "late-error", "late-error-2"}}
 \* update methods with update:ignoreZeroValueField over every kind of field type (the zero-value comparison must exist for each)
 ZeroFieldTypes == {"unsafe.Pointer", "uintptr", "complex128", "chan int", "func()", "interface{}", "any", "error", "[2]int", "[0]int", "struct{ X int }", "struct{}",
                    "*int", "[]int", "map[string]int", "string", "bool", "float32", "rune", "NI", "NS", "NP"}
@@ -68,5 +77,5 @@ UpdateZeroProgs == {[name |-> "update-zero-" \o ft \o "-" \o z \o (IF sk THEN "-
                              \o "\n// goverter:converter\n// goverter:update:ignoreZeroValueField" \o z \o "\n" \o (IF sk THEN "// goverter:skipCopySameType\n" ELSE "")
                              \o "type C interface {\n\t// goverter:update target\n\tConv(source S, target *T)\n}\n"] :
                        ft \in ZeroFieldTypes, z \in {"", ":basic", ":struct", ":nillable"}, sk \in BOOLEAN}
-Progs == SelfProgs \cup MutualProgs \cup SeenProgs \cup GenericProgs \cup GenericConvProgs \cup UpdateZeroProgs
+Progs == SelfProgs \cup MutualProgs \cup SeenProgs \cup GenericProgs \cup GenericConvProgs \cup UpdateZeroProgs \cup OddConvProgs
 =============================================================================
